@@ -371,6 +371,9 @@ def corpus_parse(tier, seed, focus='C01', nm=None):
     # 17 a default variant together with the custom-error attributes: the catch-all wins, the error function is never called
     p = A([V('Red', aci=True), V('Other', 'tuple', ['Cap'], default=True)], parse_err_ty='PErr', parse_err_fn='perr')
     p.attr_layout = 'split_rev'
+    # 18 flags on variants where they must not matter: case-insensitive default, default_with on a disabled variant, repeated spellings; where-clause generics
+    A([V('Fallback', 'tuple', ['Cap'], default=True, aci=True, ser=['never-a-spelling']), V('DwGone', 'tuple', ['u8'], disabled=True, dw='dw_u8', ser=['dwgone']),
+       V('Dup', ser=['dup', 'dup'], ts='dup'), V('Gen', 'named', ['T', 'u8'], names=['t', 'n'], fdw={'n': 'dw_u8'}, aci=True)], where_clause='where T: Clone')
     if tier == 'quick':
         return out
     styles = [None, 'snake_case', 'SCREAMING_SNAKE_CASE', 'kebab-case', 'camelCase', 'PascalCase', 'lowercase', 'UPPERCASE', 'title_case', 'mixed_case', 'Train-Case', 'SCREAMING-KEBAB-CASE']
@@ -462,6 +465,11 @@ def corpus_print(tier, seed, derives=PRINTERS, with_forward=True, with_prefix=Tr
         p.variants[2].transparent = True
         A([V('S', 'tuple', ["&'static str"]), V('Plain')], derives=('Display',))
         out[-1].variants[0].transparent = True
+        # transparent / default on a disabled variant: disabled wins; a transparent variant that also has naming attributes still forwards
+        p = A([V('TrGone', 'tuple', ['Cap'], disabled=True), V('DfGone', 'named', ['Cap'], names=['raw'], default=True, disabled=True), V('Tr', 'tuple', ['Cap'], ts='ignored-name', ser=['x']), V('Plain', 'tuple', ['T'])],
+              derives=('Display', 'AsRefStr'), where_clause='where T: Clone')
+        p.variants[0].transparent = True
+        p.variants[2].transparent = True
     if tier == 'quick':
         return out
     styles = [None, 'snake_case', 'SCREAMING_SNAKE_CASE', 'kebab-case', 'camelCase', 'PascalCase', 'lowercase', 'UPPERCASE', 'title_case', 'mixed_case', 'Train-Case', 'SCREAMING-KEBAB-CASE',
